@@ -4,16 +4,43 @@
   C08.sole-ref      a non-leaf instance reachable from the top shares its definition  site: 'reachable-nonleaf'
   C08.elab          the elaborated design changed                                     site: hier | leaves | nets
   C08.inv           Inv (I1-I4) fails afterwards                                      site: clause
-  C08.fresh-names   a new definition is not in its original's library / name not fresh/unique   site: which clause
+  C08.fresh-names   a new definition is not in its original's library / name or EDIF identifier not fresh/unique   site: which clause
   C08.idempotent    a second uniquify changed canon                                   site: 'canon'
-Every case starts with the module counter of uniquify at 0 (= a fresh process), so a replay is exact.
+
+Input space.  Every abstract design (AD) that bcommon hands over is checked as it is (natural construction order, DEFAULT naming
+policy, uniquify's module counter at 0) and, when uniquify has something to do on it, in derived *variants* (variants()).  A
+variant is again a complete AD (so a replay file holds everything) with three more optional keys:
+
+  ad['c08'] = {'policy': 'DEFAULT' | 'EDIF',     naming policy (spydrnet.plugins.namespace_manager.default) the netlist is built under
+               'warmup': c,                      state of uniquify's module-level counter: reset to 0 (= a fresh process), then c clones
+                                                 are made by uniquify calls on another netlist ("after earlier uniquify calls")
+               'variant': label, 'verilog': source text (parsed instead of built; the fixed sources of VERILOG_CORNERS)}
+  definition['hist'] = {'pre': [op...], 'post': [op...]}   construction history of the definition's port list through the public API;
+                                                 'pre' runs before any instance exists, 'post' after the early instances exist:
+        ['port', name, pins_now, position|None]  Port(...); add_port(port, position) / create_port (append); create_pins(pins_now)
+        ['pins', name, count, 'end'|'front'|'rotate']   create_pins | add_pin(pin, 0) | create_pins + port.pins = rotated (Verilog parser idiom)
+        ['order', [names]]                       definition.ports = [...]
+        ['pinperm', name, [indices]]             port.pins = [...]
+        ['readd', name, position|None]           remove_port(port); add_port(port, position)
+  instance['hist'] = {'late': bool, 'mode': 'create'|'assign'|'add'}   created after the 'post' steps / create_child(reference=) |
+                                                 create_child() then .reference = | Instance(); .reference =; add_child
+Whatever the history, the finished netlist is the one build_api builds from the same AD (checked: HARNESS failure otherwise); what
+differs is state the public read API does not show, e.g. the order of an instance's pin dictionary relative to the port order.
+Naming variants give netlist, libraries and definitions an EDIF.identifier (equal to the name, case-swapped, or renamed) and add
+'left-over' definitions named <X>_sdn_unique_<k> (identifier <identifier of X>_sdn_unique_<k>) for reachable non-leaf X and k at /
+just above the counter value, i.e. what a netlist looks like that was uniquified before (written, read back, edited).
+The class 'identifier-taken' adds definitions whose *identifier* (compared ignoring case, as EDIF does) is <identifier of
+X>_sdn_unique_<k> while their name is not <name of X>_sdn_unique_<k>; failures on such inputs carry the tag [identifier-taken] in
+the site (decided from the input netlist, before uniquify runs).
 """
-import re
+import copy, os, random, re, tempfile, traceback
 import spydrnet as sdn
 import spydrnet.uniquify as U
+from spydrnet.plugins import namespace_manager as NM
 import designs, oracles, irlib, bcommon
 
 SUFFIX = re.compile(r'_sdn_unique_\d+$')
+SFX = '_sdn_unique_%d'
 
 
 def reachable_instances(n):
@@ -32,18 +59,510 @@ def reachable_instances(n):
     return out
 
 
-def case(ad, f):
-    n = designs.build_api(ad)
+# ------------------------------------------------------------------------------------------------ builder with construction history
+def build_hist(ad):
+    """designs.build_api plus the optional 'hist' keys (module docstring). Public API only."""
+    DIR = {'IN': sdn.IN, 'OUT': sdn.OUT, 'INOUT': sdn.INOUT, 'UNDEFINED': sdn.UNDEFINED}
+    ix = {}
+
+    def nm(e):
+        return None if e.get('unnamed') else e['name']
+
+    def put(obj, e):
+        for k, v in (e.get('data') or {}).items():
+            obj[k] = copy.deepcopy(v)
+
+    def run_ops(L, d, ops):
+        dd = ix[('def', L['name'], d['name'])]
+        pd = {p['name']: p for p in d['ports']}
+        for op in ops:
+            if op[0] == 'port':
+                p = pd[op[1]]
+                if op[3] is None:
+                    pp = dd.create_port(name=nm(p), direction=DIR[p['direction']], lower_index=p['base'], is_downto=p['downto'])
+                else:
+                    pp = sdn.Port(name=nm(p), direction=DIR[p['direction']], lower_index=p['base'], is_downto=p['downto'])
+                    dd.add_port(pp, op[3])
+                if op[2]:
+                    pp.create_pins(op[2])
+                if p.get('array'):
+                    pp.is_scalar = False
+                put(pp, p)
+                ix[('port', L['name'], d['name'], p['name'])] = pp
+            elif op[0] == 'pins':
+                pp = ix[('port', L['name'], d['name'], op[1])]
+                if op[3] == 'front':
+                    for _ in range(op[2]):
+                        pp.add_pin(sdn.InnerPin(), 0)
+                else:
+                    have = len(pp.pins)
+                    pp.create_pins(op[2])
+                    if op[3] == 'rotate':
+                        pp.pins = pp.pins[have:] + pp.pins[:have]
+            elif op[0] == 'order':
+                dd.ports = [ix[('port', L['name'], d['name'], x)] for x in op[1]]
+            elif op[0] == 'pinperm':
+                pp = ix[('port', L['name'], d['name'], op[1])]
+                pins = list(pp.pins)
+                pp.pins = [pins[k] for k in op[2]]
+            elif op[0] == 'readd':
+                pp = ix[('port', L['name'], d['name'], op[1])]
+                dd.remove_port(pp)
+                if op[2] is None:
+                    dd.add_port(pp)
+                else:
+                    dd.add_port(pp, op[2])
+            else:
+                raise ValueError('unknown history step %r' % (op,))
+
+    def natural(d):
+        return [['port', p['name'], p['width'], None] for p in d['ports']]
+
+    def make_instances(late):
+        for L in ad['libraries']:
+            for d in L['definitions']:
+                dd = ix[('def', L['name'], d['name'])]
+                for i in d['instances']:
+                    h = i.get('hist') or {}
+                    if bool(h.get('late')) != late:
+                        continue
+                    ref = ix[('def', i['ref'][0], i['ref'][1])]
+                    mode = h.get('mode', 'create')
+                    if mode == 'create':
+                        ii = dd.create_child(name=nm(i), reference=ref)
+                    elif mode == 'assign':
+                        ii = dd.create_child(name=nm(i))
+                        ii.reference = ref
+                    else:
+                        ii = sdn.Instance(name=nm(i))
+                        ii.reference = ref
+                        dd.add_child(ii)
+                    for k, v in (i.get('properties') or {}).items():
+                        ii[k] = copy.deepcopy(v)
+                    put(ii, i)
+                    ix[('inst', L['name'], d['name'], i['name'])] = ii
+
+    n = sdn.Netlist(name=nm(ad))
+    put(n, ad)
+    for L in ad['libraries']:
+        lib = n.create_library(name=nm(L))
+        put(lib, L)
+        ix[('lib', L['name'])] = lib
+        for d in L['definitions']:
+            dd = lib.create_definition(name=nm(d))
+            put(dd, d)
+            ix[('def', L['name'], d['name'])] = dd
+            run_ops(L, d, d['hist']['pre'] if d.get('hist') else natural(d))
+            for c in d['cables']:
+                cc = dd.create_cable(name=nm(c), wires=c['width'], lower_index=c['base'])
+                if 'downto' in c:
+                    cc.is_downto = c['downto']
+                if c.get('array'):
+                    cc.is_scalar = False
+                put(cc, c)
+                ix[('cable', L['name'], d['name'], c['name'])] = cc
+    make_instances(False)
+    for L in ad['libraries']:
+        for d in L['definitions']:
+            if d.get('hist'):
+                run_ops(L, d, d['hist']['post'])
+    make_instances(True)
+    for L in ad['libraries']:         # children in AD order whatever their creation time
+        for d in L['definitions']:
+            if any((i.get('hist') or {}).get('late') for i in d['instances']):
+                ix[('def', L['name'], d['name'])].children = [ix[('inst', L['name'], d['name'], i['name'])] for i in d['instances']]
+    for L in ad['libraries']:
+        for d in L['definitions']:
+            insts = {i['name']: i for i in d['instances']}
+            for net in d['nets']:
+                c = ix[('cable', L['name'], d['name'], net['cable'])]
+                w = c.wires[net['bit'] - c.lower_index]
+                for ep in net['endpoints']:
+                    if ep[0] == 'port':
+                        p = ix[('port', L['name'], d['name'], ep[1])]
+                        pin = p.pins[ep[2] - p.lower_index]
+                    else:
+                        ii = ix[('inst', L['name'], d['name'], ep[1])]
+                        rp = ix[('port',) + tuple(insts[ep[1]]['ref']) + (ep[2],)]
+                        pin = ii.pins[rp.pins[ep[3] - rp.lower_index]]
+                    w.connect_pin(pin)
+    if ad.get('top_child'):
+        top = ix[('inst',) + tuple(ad['top_child'])]
+    else:
+        top = sdn.Instance(name=ad.get('top_instance_name'))
+        top.reference = ix[('def',) + tuple(ad['top'])]
+    n.top_instance = top
+    return n
+
+
+def has_history(ad):
+    return any(d.get('hist') or any(i.get('hist') for i in d['instances']) for L in ad['libraries'] for d in L['definitions'])
+
+
+# ------------------------------------------------------------------------------------------------ variant generator (AD -> ADs)
+def gen_port_history(r, d):
+    """A random route to the port list of d: creation order, early/late ports, late pins, insertion at a position or appending
+    followed by a reorder, pin reorders, a port taken out and put back."""
+    names = [p['name'] for p in d['ports']]
+    width = {p['name']: p['width'] for p in d['ports']}
+    if not names:
+        return None
+    late_pins = {}
+    for x in names:
+        if width[x] > 1 and r.random() < 0.4:
+            late_pins[x] = [r.randint(1, width[x] - 1), r.choice(['end', 'front', 'rotate'])]
+    late = [x for x in names if r.random() < 0.3]
+    early = [x for x in names if x not in late]
+    method = r.choice(['position', 'reorder'])
+    present, pre, post = [], [], []
+
+    def place(ops, x):
+        now = width[x] - (late_pins[x][0] if x in late_pins else 0)
+        if method == 'position':
+            pos = sum(1 for y in present if names.index(y) < names.index(x))
+            ops.append(['port', x, now, pos])
+            present.insert(pos, x)
+        else:
+            ops.append(['port', x, now, None])
+            present.append(x)
+    if r.random() < 0.7:
+        r.shuffle(early)
+    for x in early:
+        place(pre, x)
+    want = [x for x in names if x in present]
+    if present != want and r.random() < 0.4:
+        pre.append(['order', want])
+        present[:] = want
+    r.shuffle(late)
+    for x in late:
+        place(post, x)
+    for x in names:
+        if x in late_pins:
+            post.append(['pins', x, late_pins[x][0], late_pins[x][1]])
+    multi = [x for x in names if width[x] > 1]
+    if multi and r.random() < 0.2:
+        x = r.choice(multi)
+        perm = list(range(width[x]))
+        r.shuffle(perm)
+        post.append(['pinperm', x, perm])
+    if r.random() < 0.15:
+        x = r.choice(names)
+        if method == 'position':
+            post.append(['readd', x, names.index(x)])
+        else:
+            post.append(['readd', x, None])
+            present.remove(x)
+            present.append(x)
+    if present != names:
+        post.append(['order', names])
+    return {'pre': pre, 'post': post}
+
+
+def add_history(r, ad):
+    for L in ad['libraries']:
+        for d in L['definitions']:
+            if r.random() < 0.85:
+                h = gen_port_history(r, d)
+                if h:
+                    d['hist'] = h
+            for i in d['instances']:
+                if r.random() < 0.5:
+                    i['hist'] = {'late': r.random() < 0.35, 'mode': r.choice(['create', 'assign', 'add'])}
+
+
+def legal(name):
+    s = re.sub(r'[^0-9A-Za-z_]', '_', name)
+    return s if s[:1].isalpha() else 'id_' + s
+
+
+def add_identifiers(r, ad):
+    """EDIF.identifier on the netlist, the libraries and the definitions: legal under the EDIF policy and pairwise different
+    (ignoring case) among siblings."""
+    ad.setdefault('data', {})['EDIF.identifier'] = legal(ad['name'])
+    used = set()
+    for L in ad['libraries']:
+        ident = legal(L['name'])
+        while ident.lower() in used:
+            ident += '_l'
+        used.add(ident.lower())
+        L.setdefault('data', {})['EDIF.identifier'] = ident
+        du = set()
+        for d in L['definitions']:
+            base = legal(d['name'])
+            ident = r.choice([base, base, base, base.swapcase(), 'c_' + base])
+            while ident.lower() in du:
+                ident += '_d'
+            du.add(ident.lower())
+            d.setdefault('data', {})['EDIF.identifier'] = ident
+
+
+def clone_targets(ad):
+    """(library dict, definition dict) of the non-leaf definitions below the top: the ones uniquify may have to copy."""
+    db = designs.defs_by_name(ad)
+    lib_of = {(L['name'], d['name']): L for L in ad['libraries'] for d in L['definitions']}
+    seen, order = set(), []
+
+    def walk(k):
+        for i in db[k]['instances']:
+            rk = tuple(i['ref'])
+            if not designs.is_leaf_def(db[rk]):
+                if rk not in seen:
+                    seen.add(rk)
+                    order.append(rk)
+                walk(rk)
+    walk(tuple(ad['top']))
+    return [(lib_of[k], db[k]) for k in order]
+
+
+def add_leftovers(r, ad, counter, mode, kind):
+    """Definitions that look like the product of an earlier uniquify run.
+    kind 'name':       named <X>_sdn_unique_<k>, identifier <identifier of X>_sdn_unique_<k> when X has one
+    kind 'identifier': the identifier (in some letter case) is <identifier of X>_sdn_unique_<k>, the name is something else
+    mode 'first': k = counter for every X (the first suffix handed out is taken, whichever X is copied first);
+    mode 'random': up to 5 random (X, k) with k in counter .. counter+3."""
+    targets = clone_targets(ad)
+    if not targets:
+        return 0
+    if mode == 'first':
+        picks = [(t, counter) for t in targets[:5]]
+    else:
+        picks = []
+        for _ in range(r.randint(1, 5)):
+            p = (r.choice(targets), counter + r.randrange(0, 4))
+            if p not in picks:
+                picks.append(p)
+    top = designs.defs_by_name(ad)[tuple(ad['top'])]
+    made = 0
+    for (L, X), k in picks:
+        names = set(d['name'] for d in L['definitions'])
+        idents = set((d.get('data') or {}).get('EDIF.identifier', '').lower() for d in L['definitions'])
+        xid = (X.get('data') or {}).get('EDIF.identifier')
+        if kind == 'name':
+            name = X['name'] + SFX % k
+            ident = xid + SFX % k if xid is not None else None
+        else:
+            if xid is None:
+                continue
+            name = 'spare%d' % made if r.random() < 0.6 else X['name'].swapcase() + SFX % k
+            if name == X['name'] + SFX % k:
+                name = 'spare%d' % made
+            ident = xid + SFX % k
+            ident = r.choice([ident, ident.swapcase(), ident.upper()])
+        if name in names or (ident is not None and ident.lower() in idents):
+            continue
+        if r.random() < 0.7:          # a copy of X, as uniquify leaves it behind
+            D = copy.deepcopy(X)
+            D.pop('hist', None)
+            for i in D['instances']:
+                i.pop('hist', None)
+        else:                         # something unrelated that happens to carry the name
+            D = {'ports': [], 'cables': [{'name': 'n', 'width': 1, 'base': 0}], 'instances': [], 'nets': []}
+        D['name'] = name
+        D['data'] = dict(D.get('data') or {})
+        D['data'].pop('EDIF.identifier', None)
+        if ident is not None:
+            D['data']['EDIF.identifier'] = ident
+        if not D['data']:
+            del D['data']
+        at = L['definitions'].index(X) + 1 if r.random() < 0.6 else len(L['definitions'])
+        L['definitions'].insert(at, D)
+        made += 1
+        if r.random() < 0.5 and not ad.get('top_child'):      # still in use, pins left unconnected
+            iname = 'old%d' % made
+            while iname in set(i['name'] for i in top['instances']):
+                iname += '_'
+            top['instances'].append({'name': iname, 'ref': [L['name'], name], 'properties': {}})
+            if r.random() < 0.3:                               # ... twice: the left-over is itself shared
+                top['instances'].append({'name': iname + 'b', 'ref': [L['name'], name], 'properties': {}})
+    return made
+
+
+def variants(ad, feats):
+    """The derived designs of one base AD (deterministic in the AD)."""
+    if feats['shared_nonleaf_static'] < 1 or ad.get('c08') or has_history(ad):
+        return []
+    r = random.Random('c08/' + designs.ad_hash(ad))
+    micro = 'micro' in (ad.get('meta') or {})
+    named = not any(e.get('unnamed') for L in ad['libraries'] for d in L['definitions'] for e in [L, d])
+    out = []
+
+    def new(label, policy, warmup):
+        v = copy.deepcopy(ad)
+        v['c08'] = {'variant': label, 'policy': policy, 'warmup': warmup}
+        out.append(v)
+        return v
+    # 1. construction history only
+    v = new('history', 'DEFAULT', 0)
+    add_history(r, v)
+    if not named:
+        return out
+    # 2./3. a netlist that was uniquified before, under either policy, in a fresh process and after earlier calls
+    pols = ['EDIF', 'DEFAULT']
+    if micro:
+        pols = [pols[ad['meta']['micro'] % 2]]
+    for policy in pols:
+        c = r.choice([0, 0, 1, 2, 5]) if policy == 'DEFAULT' or r.random() < 0.5 else 0
+        v = new('leftover-names', policy, c)
+        add_identifiers(r, v)
+        add_leftovers(r, v, c, r.choice(['first', 'first', 'random']), 'name')
+        if r.random() < 0.5:
+            add_history(r, v)
+    if micro:
+        return out
+    # 4. names taken, no identifiers anywhere
+    c = r.choice([0, 3])
+    v = new('leftover-names-plain', r.choice(['DEFAULT', 'EDIF']), c)
+    add_leftovers(r, v, c, 'random', 'name')
+    add_history(r, v)
+    # 5. identifier taken under another name
+    c = r.choice([0, 0, 2])
+    v = new('leftover-identifiers', ('EDIF', 'DEFAULT')[r.randrange(2)], c)
+    add_identifiers(r, v)
+    if not add_leftovers(r, v, c, 'first', 'identifier'):
+        out.pop()
+    for v in out:
+        assert not designs.validate_ad(v), designs.validate_ad(v)
+    return out
+
+
+# Verilog sources whose modules are used before they are declared, with the ports named / listed in another order than the
+# module header has them (the parser creates the ports at first use and reorders them when it meets the declaration).
+VERILOG_CORNERS = [
+    ('use_before_declare_named', """\
+module top (input [1:0] a, input b, output [1:0] y, output z);
+  wire [1:0] m;
+  wire n;
+  pair p0 (.sel(b), .q(m), .d(a), .r(n));
+  pair p1 (.r(z), .d(m), .sel(n), .q(y));
+endmodule
+
+module pair (input [1:0] d, input sel, output [1:0] q, output r);
+  wire t;
+  BUF2 b0 (.I(d), .O(q));
+  inner i0 (.o(t), .i(sel));
+  inner i1 (.o(r), .i(t));
+endmodule
+
+module inner (input i, output o);
+  BUF1 b (.I(i), .O(o));
+endmodule
+"""),
+    ('declared_first_named_out_of_order', """\
+module inner (input i, output [1:0] o, input e);
+  BUF1 b (.I(i), .O(o[0]));
+  BUF1 c (.I(e), .O(o[1]));
+endmodule
+
+module top (input a, input b, output [3:0] y);
+  inner u0 (.e(b), .o(y[1:0]), .i(a));
+  inner u1 (.o(y[3:2]), .i(b), .e(a));
+endmodule
+"""),
+]
+
+
+def verilog_corner_ads():
+    return [{'name': nm, 'libraries': [], 'top': None, 'meta': {'corner': 'verilog:' + nm},
+             'c08': {'variant': 'verilog', 'policy': 'DEFAULT', 'warmup': 0, 'verilog': src}} for nm, src in VERILOG_CORNERS]
+
+
+# ------------------------------------------------------------------------------------------------ one design
+def warm_up(c):
+    """Fresh-process state of uniquify's counter, then c clones made by uniquify on another netlist."""
     U.MOD_NAME_UID = 0
+    if not c:
+        return
+    n = sdn.Netlist(name='warmup')
+    lib = n.create_library(name='work')
+    leaf = lib.create_definition(name='leaf')
+    mid = lib.create_definition(name='mid')
+    mid.create_child(name='l', reference=leaf)
+    top = lib.create_definition(name='top')
+    for k in range(c + 1):
+        top.create_child(name='m%d' % k, reference=mid)
+    ti = sdn.Instance(name='t')
+    ti.reference = top
+    n.top_instance = ti
+    U.uniquify(n)
+    assert U.MOD_NAME_UID == c, 'warm-up left the counter at %r, wanted %r' % (U.MOD_NAME_UID, c)
+
+
+def ident_of(d):
+    v = d['EDIF.identifier'] if 'EDIF.identifier' in d else None
+    return v if isinstance(v, str) else None
+
+
+def identifier_taken(n):
+    """Input class: some definition's identifier is <identifier of X>_sdn_unique_<k> (ignoring case) for a definition X of the
+    same library although its name is not <name of X>_sdn_unique_<k>."""
+    for l in n.libraries:
+        defs = list(l.definitions)
+        for x in defs:
+            xi = ident_of(x)
+            if xi is None or x.name is None or oracles.is_leaf_definition(x):     # only non-leaf definitions are ever copied
+                continue
+            pat = re.compile(re.escape(xi.lower()) + r'_sdn_unique_(\d+)$')
+            for y in defs:
+                yi = ident_of(y)
+                m = pat.match(yi.lower()) if (yi is not None and y is not x) else None
+                if m and y.name != x.name + SFX % int(m.group(1)):
+                    return True
+    return False
+
+
+def out_of_order_instances(n):
+    """How many instances of shared non-leaf definitions below the top list their pins in another order than the ports do."""
+    k = 0
+    for i in reachable_instances(n):
+        r = i.reference
+        if oracles.is_leaf_definition(r) or len(r.references) < 2:
+            continue
+        want = [id(q) for p in r.ports for q in p.pins]
+        have = [id(o.inner_pin) for o in i.pins]
+        if want != have:
+            k += 1
+    return k
+
+
+def one(ad, f):
+    cfg = ad.get('c08') or {}
+    policy = cfg.get('policy', 'DEFAULT')
+    saved = NM.default
+    NM.default = policy
+    try:
+        if cfg.get('verilog'):
+            with tempfile.TemporaryDirectory() as td:
+                path = os.path.join(td, 'design.v')
+                with open(path, 'w') as fh:
+                    fh.write(cfg['verilog'])
+                n = sdn.parse(path)
+        elif has_history(ad):
+            n = build_hist(ad)
+            ref = designs.build_api(ad)
+            same = oracles.canon(n) == oracles.canon(ref) and oracles.elab(n) == oracles.elab(ref)
+            assert same, 'build_hist and build_api disagree: %s' % (oracles.diff(oracles.canon(ref), oracles.canon(n)))
+        else:
+            n = designs.build_api(ad)
+        warm_up(cfg.get('warmup', 0))
+    finally:
+        NM.default = saved
+    f.stats['designs'] += 1
+    f.stats['variant:%s/%s/counter%s' % (cfg.get('variant', 'base'), policy, '0' if not cfg.get('warmup') else '>0')] += 1
+    tag = '[identifier-taken]' if identifier_taken(n) else ''
+    ooo = out_of_order_instances(n)
+    f.stats['instances_with_pins_out_of_port_order'] += ooo
+    f.stats['designs_with_pins_out_of_port_order'] += 1 if ooo else 0
+    counter0 = U.MOD_NAME_UID
     e0 = oracles.elab(n)
     before = {id(d): (l, d.name) for l in n.libraries for d in l.definitions}
     names_before = {id(l): [d.name for d in l.definitions] for l in n.libraries}
+    idents_before = {id(l): [ident_of(d) for d in l.definitions] for l in n.libraries}
     ok = [False]
 
     def go():
         U.uniquify(n)
         ok[0] = True
-    f.guarded('C08.raises', 'uniquify', go)
+    f.guarded('C08.raises', 'uniquify' + tag, go)
     if not ok[0]:
         return
     # every non-leaf instance reachable from the top is the only instance of its definition
@@ -67,6 +586,7 @@ def case(ad, f):
     # new definitions: fresh unique names, in the library of the definition they copy
     new = [(l, d) for l in n.libraries for d in l.definitions if id(d) not in before]
     f.stats['new_definitions'] += len(new)
+    f.stats['suffixes_skipped_because_taken'] += U.MOD_NAME_UID - counter0 - sum(1 for l, d in new if d.name is not None)
     for l, d in new:
         nm = d.name
         if nm is None:
@@ -78,9 +598,24 @@ def case(ad, f):
         f.check(origin_here, 'C08.fresh-names', 'original-library', 'new definition %r is in library %r which holds no definition %r' % (nm, l.name, base))
         f.check(nm not in names_before[id(l)], 'C08.fresh-names', 'fresh', 'new definition took the existing name %r' % nm)
         f.check(sum(1 for x in l.definitions if x.name == nm) == 1, 'C08.fresh-names', 'unique', 'name %r occurs twice in library %r' % (nm, l.name))
+        idn = ident_of(d)
+        if idn is not None:           # the name an EDIF file is written with: as fresh as the name
+            taken = [x for x in idents_before[id(l)] if x is not None and x.lower() == idn.lower()]
+            f.check(not taken, 'C08.fresh-names', 'identifier-fresh' + tag,
+                    'new definition %r took the EDIF identifier %r of an existing definition of library %r' % (nm, idn, l.name))
     for l in n.libraries:     # nothing old was renamed or dropped
         kept = [d.name for d in l.definitions if id(d) in before]
         f.check(kept == names_before[id(l)], 'C08.fresh-names', 'old-definitions-kept', 'pre-existing definitions of %r changed: %r -> %r' % (l.name, names_before[id(l)], kept))
+        keptid = [ident_of(d) for d in l.definitions if id(d) in before]
+        f.check(keptid == idents_before[id(l)], 'C08.fresh-names', 'old-identifiers-kept', 'EDIF identifiers of pre-existing definitions of %r changed: %r -> %r' % (l.name, idents_before[id(l)], keptid))
+    for l in n.libraries:     # names and (ignoring case) EDIF identifiers are unique within each library, as they were
+        for what, was, now, site in (('name', [x for x in names_before[id(l)] if x is not None], [d.name for d in l.definitions if d.name is not None], 'names-unique'),
+                                     ('EDIF identifier', [x.lower() for x in idents_before[id(l)] if x is not None],
+                                      [ident_of(d).lower() for d in l.definitions if ident_of(d) is not None], 'identifiers-unique' + tag)):
+            if len(set(was)) != len(was):
+                continue              # not unique to begin with: nothing is claimed
+            dup = sorted(set(x for x in now if now.count(x) > 1))
+            f.check(not dup, 'C08.fresh-names', site, 'library %r holds two definitions with the %s %r after uniquify' % (l.name, what, dup[0] if dup else ''))
     # idempotent
     c1 = oracles.canon(n)
     ok[0] = False
@@ -88,6 +623,28 @@ def case(ad, f):
     if ok[0]:
         c2 = oracles.canon(n)
         f.check(c1 == c2, 'C08.idempotent', 'canon', oracles.diff(c1, c2))
+
+
+_verilog_done = [False]
+
+
+def case(ad, f):
+    """The design as it is, then its variants; a failure is recorded with the AD of the variant it happened on."""
+    one(ad, f)
+    if ad.get('c08') or has_history(ad):      # a replayed variant
+        return
+    todo = variants(ad, designs.ad_features(ad))
+    if (ad.get('meta') or {}).get('corner') and not _verilog_done[0]:      # fixed parsed sources ride along with the corner designs
+        _verilog_done[0] = True
+        todo = todo + verilog_corner_ads()
+    for v in todo:
+        f.ad = v
+        try:
+            one(v, f)
+        except Exception:
+            f.fail('HARNESS', 'variant', traceback.format_exc()[-900:])
+        finally:
+            f.ad = ad
 
 
 def profile_for(seed):
